@@ -1,5 +1,7 @@
 import Driver.Run
 import Driver.Fam.Search
+import Driver.Fam.SearchBytes
 open Driver
 /-- families of area "search" -/
-def main (args : List String) : IO UInt32 := run [Fam.search, Fam.secretscan, Fam.cellfmt, Fam.searchre, Fam.searchmut, Fam.secretbig] args
+def main (args : List String) : IO UInt32 := run [Fam.search, Fam.secretscan, Fam.cellfmt, Fam.searchre, Fam.searchmut, Fam.secretbig,
+  Fam.searchbytes, Fam.secretbytes, Fam.cellfmtbytes, Fam.searchuni, Fam.secretedge] args
